@@ -362,7 +362,9 @@ def known_class(ver, req_tokens, d):
     """class of the open finding (known_findings.d/C02.json, C13.json): an unquoted string whose single line exceeds the
     line limit comes back quoted.  (The classes of the five writer defects repaired by 0543b02, 634c0d5, 098a48f, bf64cbf,
     40af3df are gone: a recurrence is a violation.)"""
-    if d is None or d.get("b") != 0 or d.get("rc") != 0:
+    if d is None or d.get("b") != 0:
+        return None
+    if d.get("rc") != 0:
         return None
     if check_output(ver, req_tokens, d) is None:
         return None
